@@ -134,8 +134,49 @@ pub fn check(c: &Case) -> CheckResult {
     }
     pb.close();
     let opts = DrawOptions { blend_mode: BlendMode::Src, alpha: c.alpha, antialias: AntialiasMode::Gray };
-    c.src.with(|s| dt.fill(&pb.finish(), s, &opts));
+    let cover = pb.finish();
+    c.src.with(|s| dt.fill(&cover, s, &opts));
     let got = dt.get_data();
+    // The same fill through a clip *path* (a pixel-aligned rectangle that leaves the first columns and rows out):
+    // spans then start left of the first visible pixel and go through the clip-mask blitters, with Src and with
+    // SrcOver. Inside the clip the colours must be the unclipped ones, outside nothing may be drawn.
+    if c.w >= 3 && c.h >= 3 {
+        let (cx0, cy0) = (1 + (c.w / 3), 1);
+        for mode in [BlendMode::Src, BlendMode::SrcOver] {
+            let mut d2 = DrawTarget::new(c.w, c.h);
+            let mut cp = PathBuilder::new();
+            cp.rect(cx0 as f32, cy0 as f32, (c.w - cx0) as f32, (c.h - cy0 - 1) as f32);
+            d2.push_clip(&cp.finish());
+            d2.set_transform(&to_transform(&c.ctm));
+            let o2 = DrawOptions { blend_mode: mode, alpha: c.alpha, antialias: AntialiasMode::Gray };
+            c.src.with(|s| d2.fill(&cover, s, &o2));
+            let g2 = d2.get_data();
+            for py in 0..c.h {
+                for px in 0..c.w {
+                    let i = (py * c.w + px) as usize;
+                    let inside = px >= cx0 && py >= cy0 && py < c.h - 1;
+                    let want = if inside { got[i] } else { 0 };
+                    if g2[i] != want {
+                        return Err(format!(
+                            "{} gradient filled through a clip path (rect {},{} .. {},{}) with {:?}: pixel ({},{}) is {} but the unclipped fill gives {} there{}",
+                            c.src.kind(),
+                            cx0,
+                            cy0,
+                            c.w,
+                            c.h - 1,
+                            mode,
+                            px,
+                            py,
+                            hex(g2[i]),
+                            hex(got[i]),
+                            if inside { "" } else { " (and this pixel is outside the clip)" }
+                        ));
+                    }
+                }
+            }
+        }
+        o.class("also-through-clip-path");
+    }
     let (stops, spread) = stops_of(&c.src);
     let a255 = (c.alpha * 255.0 + 0.5) as u32 as f64;
     let widen = matches!(c.src, SrcSpec::TwoCircle { .. } | SrcSpec::Sweep { .. });
@@ -407,7 +448,7 @@ pub fn property(ctx: &Ctx) -> Property {
     let c = ctx.clone();
     Property {
         id: "C12",
-        rule: "cases: linear (extent >= 1 px), radial (r >= 1), two-circle (first circle strictly inside the second) and sweep gradients built with the Source::new_* constructors; 1-5 stops at strictly increasing positions (gaps >= 0.02, ends not necessarily 0/1) with random unpremultiplied colours or probe ramps; Pad/Repeat/Reflect; global alpha; identity or any invertible CTM, optionally with user space zoomed (units 256, 4096 or 65536 times smaller, or 64 times larger, under a correspondingly scaled CTM); 4..24 px surfaces, rendered with a full-surface Src fill. Oracle: f64 parameter t per pixel centre (through the inverse CTM) by the statement's definitions, colour = piecewise-linear interpolation of the unpremultiplied stops after the spread map, premultiplied and scaled by alpha; every channel must lie within 4/255 of the range that colour takes for t within 3/255 (+|t|/255 for two-circle and sweep) of the pixel's t; Pad pixels beyond an end all show one identical colour; two-circle pixels without admissible circle are transparent. Non-trivial: >=3 distinct colours on the surface and t spanning >= 0.25; distinct by hash of the case.",
+        rule: "cases: linear (extent >= 1 px), radial (r >= 1), two-circle (first circle strictly inside the second) and sweep gradients built with the Source::new_* constructors; 1-5 stops at strictly increasing positions (gaps >= 0.02, ends not necessarily 0/1) with random unpremultiplied colours or probe ramps; Pad/Repeat/Reflect; global alpha; identity or any invertible CTM, optionally with user space zoomed (units 256, 4096 or 65536 times smaller, or 64 times larger, under a correspondingly scaled CTM); 4..24 px surfaces, rendered with a full-surface Src fill (and again, Src and SrcOver, through a pixel-aligned clip path that cuts off the first columns: same colours inside, nothing outside). Oracle: f64 parameter t per pixel centre (through the inverse CTM) by the statement's definitions, colour = piecewise-linear interpolation of the unpremultiplied stops after the spread map, premultiplied and scaled by alpha; every channel must lie within 4/255 of the range that colour takes for t within 3/255 (+|t|/255 for two-circle and sweep) of the pixel's t; Pad pixels beyond an end all show one identical colour; two-circle pixels without admissible circle are transparent. Non-trivial: >=3 distinct colours on the surface and t spanning >= 0.25; distinct by hash of the case.",
         assumptions: vec!["sweep pixels within 1.5 px of the centre or within 0.75 px of the angle-0 ray are not judged (angle discontinuity inside the pixel)"],
         parts: vec![part("render", 60_000, 1_000_000, move || strategy(&c), check)],
         min_class_fraction: vec![("render", "src:linear", 0.15), ("render", "src:radial", 0.15), ("render", "src:twocircle", 0.15), ("render", "src:sweep", 0.15), ("render", "spread:reflect", 0.2), ("render", "t>1-seen", 0.3), ("render", "t<0-seen", 0.1), ("render", "linear:horizontal-right-to-left", 0.005), ("render", "linear:vertical", 0.01), ("render", "twocircle:focal-point", 0.02), ("render", "twocircle:centres-share-one-coordinate", 0.03), ("render", "ctm-scale>=1000", 0.05)],
